@@ -724,6 +724,9 @@ func (env *SpecEnv) call(e *SExpr) (SpecVal, error) {
 	if r, ok, err := env.methodTableBuiltin(e.Name, args); ok {
 		return r, err
 	}
+	if r, ok, err := env.kvBuiltin(e.Name, args); ok {
+		return r, err
+	}
 	// code lemmas: a call of a real function of the package (executed from its SSA,
 	// or replaced by its contract when it has one)
 	if env.lemma && env.spkg != nil {
